@@ -335,6 +335,8 @@ func (b *Bounds) resolveLoad(u *ssa.UnOp) (ssa.Value, bool) {
 			}
 			st = r
 		case *ssa.UnOp, *ssa.DebugRef:
+		case *ssa.Return:
+			// the address leaves the function only when it ends: no effect on earlier loads
 		default:
 			return nil, false // address passed on (call, field addressing): not tracked
 		}
